@@ -124,6 +124,7 @@ func (s *memoryStore) AddAccountBalance(account store.Account, credit *big.Int) 
 
 	balance := s.balances[account]
 	balance.Credit = *new(big.Int).Add(&balance.Credit, credit)
+	balance.Account = account
 	s.balances[account] = balance
 	return nil
 }
@@ -198,6 +199,11 @@ func (s *memoryStore) SetNode(n store.Node) error {
 	s.mu.Lock()
 	defer s.mu.Unlock()
 	node := memNode{Node: n}
+	if existing, ok := s.nodes[n.ID]; ok {
+		// Re-registering a node keeps its tracked peers, same as the
+		// persistent store.
+		node.peers = existing.peers
+	}
 	if node.peers == nil {
 		node.peers = map[store.NodeID]time.Time{}
 	}
